@@ -14,7 +14,7 @@ ASSUMPTIONS = ["scipy kernels are functions of their arguments (uninterpreted; c
                "np.allclose follows numpy's definition; in the longest histories of each tier it answers False (compared arrays assumed not within tolerance)", "scipy.linalg.solve_triangular satisfies its documented contract"]
 OUTSIDE = ["histories longer than the bound", "n > 3", "direct writes to private attributes"]
 OPS = ["driver", "prms", "compute", "read_sf", "read_pdf"]
-VARIANTS = "one lifetime object shared by two stocks; multi-point rule / inflow_at=start on the lifetime model; consecutive array parameters; models built without parameters; np.allclose by numpy's definition except in the longest histories; dtype shadow"
+VARIANTS = "one lifetime object shared by two stocks; multi-point rule / inflow_at=start on the lifetime model; consecutive array parameters; models built without parameters; np.allclose by numpy's definition except in the longest histories; dtype shadow; two lapack models on one lifetime object; set_prms again with the held values"
 BOUNDS = {"quick": dict(n=3, history="every sequence over {set driver, set_prms, compute, read sf, read pdf} of length <= 4 that ends in compute",
                         classes="idsm, sdsm manual, sdsm lapack x 5 lifetime classes", system_loop="2 and 3 iterations"),
           "thorough": dict(n=3, history="length <= 5", classes="as quick", system_loop="2 to 4 iterations")}
